@@ -185,49 +185,31 @@ def tag_clause(ctx, s, fn, an, me, ev, false_rets, true_rets, facc, eacc):
     s.add("S-COVER", fn, "clause", "tags", info["sp"], PROVED if ok else VIOLATION,
           "Tags::matches(event tags, name of constraint i, value j>=1 of constraint i)" if ok else
           "the tag clause does not test (event tags, constraint name, constraint value): event=%s name=%s value=%s same-constraint=%s" % (ok0, ok1, ok2, same_i), b)
-    # found = true only under matches() == true
-    found = [i for i, l in enumerate(fn.locals) if l.get("n") == "found"]
+    # progress to the next constraint (or to acceptance) requires a match: from the walk over the values of one
+    # constraint, no value-feasible path that avoids the true outcome of Tags::matches reaches the outer loop's back
+    # edge or Ok(true).  (Flag variables such as `found` are threaded: a join of known booleans leading to the test of
+    # that boolean takes only the matching arm.)
     V = info["value"]
-    n_set = 0
-    oks = True
-    for (bb, i), v in an.stmt_val.items():
-        L = an.stmt_loc.get((bb, i))
-        if L is not None and L[0] == "local" and L[1] in found and v == ("const", 1, "bool"):
-            n_set += 1
-            if not any(f[0] == "true" and f[1] == V for f in ctx.E.facts(fn, bb)):
-                oks = False
-    s.add("S-DOM", fn, "found-only-if-matched", "found=true", info["sp"], PROVED if (oks and n_set) else VIOLATION,
-          "a constraint counts as satisfied only under Tags::matches(..) == true" if (oks and n_set) else
-          "a tag constraint can count as satisfied without a matching tag")
-    # a constraint whose values were exhausted without a match rejects
-    rej = []
-    for n, ec in an.edge_cond.items():
-        if ec[0] != "switch":
-            continue
-        D, label = ec[1], ec[2]
-        neg = False
-        while D[0] == "not":
-            D = D[1]
-            neg = not neg
-        if D[0] == "phi" and D[2][0] == "local" and D[2][1] in found:
-            # value of the switched expression on this edge
-            if label[0] == "switch":
-                val = bool(label[1])
-            else:
-                val = not bool(label[1][0]) if len(label[1]) == 1 else None
-            if val is None:
-                continue
-            found_val = (not val) if neg else val
-            if found_val is False:
-                rej.append(n)
-    okrej = False
-    for n in rej:
-        reach = an.cfg.reach_from([n])
-        if any(x in reach for x in false_rets) and not any(t in reach for t in true_rets):
-            okrej = True
-    s.add("S-DOM", fn, "unsatisfied-constraint-rejects", "!found", fn.sp, PROVED if okrej else VIOLATION,
-          "a constraint none of whose values matched reaches only Ok(false) (AND over constraints)" if okrej else
-          "an unsatisfied tag constraint does not reject the event (the constraints are not ANDed)")
+    loops = an.cfg.natural_loops()
+    inner = [H for H, body in loops.items() if b in body]
+    inner.sort(key=lambda H: len(loops[H]))
+    true_edges = [n for n in an.edge_cond if any(f[0] == "true" and f[1] == V for f in s.edge_facts(fn, n))]
+    if len(inner) < 2 or not true_edges:
+        s.add("S-DOM", fn, "next-constraint-only-after-match", "matches", info["sp"], VIOLATION if not true_edges else UNDECIDED,
+              "the outcome of Tags::matches is never tested" if not true_edges else
+              "the tag clause is not a walk over values inside a walk over constraints: shape not recognised, not decided", b)
+    else:
+        Hi, Ho = inner[0], inner[1]
+        back_outer = [e.node for e in an.cfg.in_edges[Ho] if e.src in loops[Ho]]
+        reach = s.reach(fn, [Hi], avoid=true_edges)
+        leak_next = [n for n in back_outer if n in reach]
+        leak_true = [t for t in true_rets if t in reach]
+        ok2 = not leak_next and not leak_true
+        s.add("S-DOM", fn, "next-constraint-only-after-match", "matches", info["sp"], PROVED if ok2 else VIOLATION,
+              "from the walk over one constraint's values, the next constraint or Ok(true) is reached only through "
+              "Tags::matches(..) == true; exhausting the values rejects" if ok2 else
+              "a tag constraint none of whose values matched does not reject the event (it can reach %s)" %
+              ("the next constraint" if leak_next else "Ok(true)"), b)
     # Ok(true) only after the walk over the constraints ended (get_string(i, 0) == None) or there are no constraints
     walk_end = []
     for n in an.edge_cond:
